@@ -21,6 +21,8 @@ that rules are invariant under the commonest behaviour-preserving rewrites:
   N14 `x = E` directly followed by `return x`  ->  `return E`
   N15 `while True: if X: break; REST` (no loop else)  ->  `while not X: REST`
   N16 `x = []; for a in xs: [if c:] x.append(E)` (adjacent, x not used in E/xs/c)  ->  `x = [E for a in xs if c]`
+  N18 a statement `return A or B` / `x = A or B` / `A or B` (likewise `and`) whose later operand calls a method on self is spelled
+      out with its short-circuit: `t = A; if not t: t = B; return t` -- so that path rules see that B does not run on every path
   N6  `except T as e:` binding is kept, but the py2 idiom `e = sys.exc_info()[1]` as the first statement of a handler
       is rewritten to the binding form (`except T as e:`)
 
@@ -278,6 +280,39 @@ class Desugar(ast.NodeTransformer):
                 out.append(st)
         return out
 
+    def _shortcircuit_statements(self, stmts):
+        # N18
+        def self_call(e):
+            return any(isinstance(n, ast.Call) and isinstance(n.func, ast.Attribute) and isinstance(n.func.value, ast.Name)
+                       and n.func.value.id == "self" for n in ast.walk(e))
+        out = []
+        for st in stmts:
+            v = getattr(st, "value", None)
+            ok = isinstance(v, ast.BoolOp) and any(self_call(x) for x in v.values[1:]) and (
+                isinstance(st, (ast.Return, ast.Expr)) or
+                (isinstance(st, ast.Assign) and len(st.targets) == 1 and isinstance(st.targets[0], ast.Name)))
+            if not ok:
+                out.append(st)
+                continue
+            tname = st.targets[0].id if isinstance(st, ast.Assign) else "_sc%d" % getattr(st, "lineno", 0)
+
+            def load():
+                return ast.Name(id=tname, ctx=ast.Load())
+            new = [ast.Assign(targets=[ast.Name(id=tname, ctx=ast.Store())], value=v.values[0])]
+            cur = new
+            for x in v.values[1:]:
+                test = ast.UnaryOp(op=ast.Not(), operand=load()) if isinstance(v.op, ast.Or) else load()
+                inner = [ast.Assign(targets=[ast.Name(id=tname, ctx=ast.Store())], value=x)]
+                cur.append(ast.If(test=test, body=inner, orelse=[]))
+                cur = inner
+            if isinstance(st, ast.Return):
+                new.append(ast.Return(value=load()))
+            for n in new:
+                ast.copy_location(n, st)
+                ast.fix_missing_locations(n)
+            out.extend(new)
+        return out
+
     def _loops_to_builtins(self, stmts):
         out = []
         i = 0
@@ -361,6 +396,7 @@ class Desugar(ast.NodeTransformer):
         visited = self._split_parallel_assignments(visited)
         visited = self._dict_calls(visited)
         visited = self._ifexp_statements(visited)
+        visited = self._shortcircuit_statements(visited)
         for s in visited:
             if isinstance(s, ast.If):
                 # N2
